@@ -317,6 +317,58 @@ theorem closure_returns_current (st : St) (h : WF st) (cl : Closure) (hc : CInv 
     exact ih (apply st op) (wf_apply st h op hop) (cinv_apply st h op hop cl hc)
       (fun o ho => hops o (List.mem_cons_of_mem _ ho))
 
+/-- The generation counter of the validity flags never decreases, and a getter closure created at `st` that is
+    still current after `ops` holds the current value (helper shape of `closure_returns_current`). -/
+theorem closure_inv_run (st : St) (h : WF st) (cl : Closure) (hc : CInv st cl) (ops : List Op)
+    (hops : ∀ op ∈ ops, op.WF) : CInv (run st ops) cl ∧ WF (run st ops) := by
+  induction ops generalizing st with
+  | nil => exact ⟨hc, h⟩
+  | cons op rest ih =>
+    have hop := hops op List.mem_cons_self
+    exact ih (apply st op) (wf_apply st h op hop) (cinv_apply st h op hop cl hc)
+      (fun o ho => hops o (List.mem_cons_of_mem _ ho))
+
+/-- `config.ValidityFlag` (config/validity.go). A new flag "always starts out as invalid". -/
+theorem validity_flag_new_invalid (st : St) : VFlag.new.isValid st = false := by
+  simp [VFlag.new, VFlag.isValid]
+
+/-- Right after `Refresh` the flag is valid. -/
+theorem validity_flag_refresh_valid (vf : VFlag) (st : St) : (vf.refresh st).isValid st = true := by
+  simp [VFlag.refresh, VFlag.isValid]
+
+/-- What a user of a `ValidityFlag` relies on: as long as the flag refreshed at `st` still reads valid — after any
+    sequence of sets, layer replacements, saves and loads — every getter (any key, any fallback/type) returns
+    exactly what it returned at the time of the refresh. -/
+theorem validity_flag_valid_means_unchanged (st : St) (h : WF st) (vf : VFlag) (ops : List Op)
+    (hops : ∀ op ∈ ops, op.WF) (hv : (vf.refresh st).isValid (run st ops) = true) (k : Key) (fb : GVal) :
+    Config.get (run st ops) k fb = Config.get st k fb := by
+  have hc := (closure_inv_run st h (mkClosure st k fb) (cinv_mk st k fb) ops hops).1
+  have hg : st.gen = (run st ops).gen := by
+    simpa [VFlag.refresh, VFlag.isValid] using hv
+  have := hc.2 (by simpa [mkClosure] using hg)
+  simpa [mkClosure] using this.symm
+
+/-- Once a refreshed flag reads invalid it stays invalid, whatever happens next, until it is refreshed again
+    (old global flags are never set again: the generation only grows). -/
+theorem validity_flag_invalid_is_final (st : St) (h : WF st) (vf : VFlag) (ops more : List Op)
+    (hops : ∀ op ∈ ops, op.WF) (hmore : ∀ op ∈ more, op.WF)
+    (hv : (vf.refresh st).isValid (run st ops) = false) :
+    (vf.refresh st).isValid (run (run st ops) more) = false := by
+  have h1 := closure_inv_run st h (mkClosure st [] default) (cinv_mk st [] default) ops hops
+  have hle1 : st.gen ≤ (run st ops).gen := by simpa [mkClosure] using h1.1.1
+  have h2 := closure_inv_run (run st ops) h1.2 (mkClosure (run st ops) [] default) (cinv_mk _ [] default) more hmore
+  have hle2 : (run st ops).gen ≤ (run (run st ops) more).gen := by simpa [mkClosure] using h2.1.1
+  have hne : st.gen ≠ (run st ops).gen := by
+    intro e; simp [VFlag.refresh, VFlag.isValid, e] at hv
+  have : st.gen ≠ (run (run st ops) more).gen := by omega
+  simp [VFlag.refresh, VFlag.isValid, this]
+
+/-- A successful single-option set invalidates every flag refreshed before it. -/
+theorem validity_flag_invalid_after_successful_set (st : St) (h : WF st) (vf : VFlag) (k : Key) (v : Val) (hv : v.WF)
+    (hok : (setUser st k v).2 = .ok ()) : (vf.refresh st).isValid (apply st (.set k v)) = false := by
+  have e := setUser_ok_gen st h k v hv hok
+  simp [VFlag.refresh, VFlag.isValid, apply, e]
+
 /-- A freshly created closure satisfies the closure invariant. -/
 theorem closure_created_current (st : St) (k : Key) (fb : GVal) : CInv st (mkClosure st k fb) := cinv_mk st k fb
 
@@ -430,6 +482,19 @@ example :
       Config.get (run st [.set rlKey (.str "stable")]) ["a"] (.i 0) = .i 2 ∧ Config.get st ["a"] (.s "fb") = .s "fb" ∧
       (load (save st) false).2 = .ok [] := by
   refine ⟨wf_register _ (wf_init true) _ (by intro _; rfl) rfl (by decide), ?_, ?_, ?_, ?_, ?_, ?_⟩ <;> decide
+
+/-- `ValidityFlag` on a concrete history: new flag invalid; refreshed: valid; a rejected set (wrong type) leaves it
+    valid; a successful set invalidates it for good (a later save / second set does not revive it). -/
+example :
+    let o : Opt := { key := ["a"], ty := .int, rl := 0, rx := .none, pvs := none, vf := 0, fallback := { i := 2 } }
+    let st := register (init true) o
+    let vf := VFlag.new.refresh st
+    VFlag.new.isValid st = false ∧ vf.isValid st = true ∧
+      vf.isValid (run st [.set ["a"] (.str "x")]) = true ∧
+      vf.isValid (run st [.set ["a"] (.int .int 5)]) = false ∧
+      vf.isValid (run st [.set ["a"] (.int .int 5), .save, .set ["a"] (.int .int 2)]) = false ∧
+      (vf.refresh (run st [.set ["a"] (.int .int 5)])).isValid (run st [.set ["a"] (.int .int 5)]) = true := by
+  refine ⟨?_, ?_, ?_, ?_, ?_, ?_⟩ <;> decide
 
 open PB.ConfigConc in
 /-- An interleaving in which a setter completes between two calls of a closure; the second call refreshes and
